@@ -9,7 +9,7 @@
    is a hypothesis of the convergence theorem; these are explored on real runs by tools/props/C19.py. *)
 From Coq Require Import ZArith List Bool Arith Reals.
 From Coquelicot Require Import Coquelicot.
-From Yad Require Import Base Interp InterpTheorems InterpReal InterpDeriv GlobalInterp GlobalLipschitz GridExample LinearGrid Conv ConvGen ConvError.
+From Yad Require Import Base Interp InterpTheorems InterpReal InterpDeriv GlobalInterp GlobalLipschitz GridExample LinearGrid UniformGrid Conv ConvGen ConvError.
 Import ListNotations.
 Open Scope nat_scope.
 
@@ -197,6 +197,10 @@ Theorem C19_prediction_error_linear_grid (k : rsl) ns f M h hmin x W Ws v w : so
                   + Ws * ((2 / hmin * (M * h ^ 2 / INR (fact 2)) + M * h ^ 1 / INR (fact 1)) * x + (1 + 1) * (M * h ^ 2 / INR (fact 2))))%R.
 Proof. exact (prediction_error_linear_grid k ns f M h hmin x W Ws v w). Qed.
 Print Assumptions C19_prediction_error_linear_grid.
+(* quadratic interpolation on an equally spaced block (a logarithmic grid in its interpolation variable): Lam = 5/4 for any origin and spacing *)
+Theorem C19_uniform_quadratic_lebesgue a s tau : (0 < s)%R -> (0 <= tau <= 2)%R -> (lebesgue [a; a + s; a + 2 * s]%R (a + s * tau)%R <= 5 / 4)%R.
+Proof. exact (uniform_quadratic_lebesgue a s tau). Qed.
+Print Assumptions C19_uniform_quadratic_lebesgue.
 Example C19_linear_grid_example t : (1 / 4 <= t <= 1)%R -> (Rabs (Iglobal gex 1 exp t - exp t) <= 3 * (1 / 2) ^ 2)%R.
 Proof. exact (linear_grid_example t). Qed.
 
